@@ -208,7 +208,7 @@ class Check:
         for k, shard in enumerate(shards):
             path = os.path.join(d, "s%04d.v" % k)
             with open(path, "w") as f:
-                f.write(header + "\n")
+                f.write(header + "\nSet Printing Width 1000000.\n")
                 f.write("Definition cases := [\n")
                 f.write(";\n".join(render(it) for it in shard))
                 f.write("\n].\n")
@@ -228,7 +228,7 @@ class Check:
                 m = re.search(r"= (\[.*\])\s*: list \(N \* N\)", flat)
                 if not m:
                     raise RuntimeError("cannot parse coqc output of shard %d: %s" % (k, flat[-500:]))
-                for mm in re.finditer(r"\((\d+), (\d+)\)", m.group(1)):
+                for mm in re.finditer(r"\(\s*(\d+)\s*,\s*(\d+)\s*\)", m.group(1)):
                     bad[k * per_shard + int(mm.group(1))] = int(mm.group(2))
         self.checker_cmds.append("coqc -Q coq ZV work/%s/%s/s*.v  (%d shards, vm_compute)" % (
             self.pid, name, len(shards)))
